@@ -151,7 +151,34 @@ def oracle(case_lines, impl):
             if c and c[0] in OKCH and c != b"-":
                 exact = [j for j, e in enumerate(table) if e[0] == c]
                 exp, kind = ("ok %d" % exact[0], "exact") if exact else ("ok none", "unknown")
+        elif t[:2] == ["keys", "word"] and len(t) == 4 and valid:
+            exp, kind = word_oracle(table, t[2] == "1", unhex(t[3]))
         yield i, exp, kind
+
+
+def word_oracle(table, abbr, w):
+    """what the property text demands of a key word of the command line, over the *set* of defined keys: `-c`
+    selects the argument with the short key c, `--name` the argument with the long key name (of ANY length >= 1),
+    else with abbreviations the only argument whose long key starts with name; a tuple lists several admissible
+    answers ("selects ... only if": for a one-character name the property does not force the abbreviation to be
+    accepted)"""
+    if len(w) == 2 and w[:1] == b"-" and w[1] in OKCH and w[1:] != b"-":
+        exact = [j for j, e in enumerate(table) if e[0] == w[1:]]
+        return ("ok %d" % exact[0], "w-exact-short") if exact else ("ok none", "w-unknown")
+    if len(w) >= 3 and w[:2] == b"--" and all(c in OKCH for c in w[2:]) and w[2:3] != b"-":
+        name = w[2:]
+        exact = [j for j, e in enumerate(table) if e[1] == name]
+        if exact:
+            return "ok %d" % exact[0], "w-exact-long%d" % min(len(name), 2)
+        c = [j for j, e in enumerate(table) if e[1].startswith(name)] if abbr else []
+        if len(name) == 1:
+            if len(c) == 1:
+                return ("ok %d" % c[0], "ok none"), "w-prefix1"
+            return ("ok none", "throw runtime_error") if c else ("ok none",), "w-prefix1"
+        if len(c) == 1:
+            return "ok %d" % c[0], "w-unique-prefix"
+        return ("throw runtime_error", "w-ambiguous") if c else ("ok none", "w-unknown")
+    return None, ""
 
 
 def judge(prop, case, impl, model):
@@ -168,8 +195,12 @@ def judge(prop, case, impl, model):
             probs.append(Problem("badop", case, i, op, a, b))
             break
         e = exp.get(i, (None, ""))[0]
-        if a is not None and e is not None and a != e:
-            probs.append(Problem("oracle", case, i, op, a, b, detail="the property demands: " + e))
+        if isinstance(e, str):
+            e = (e,)
+        if a is not None and e is not None and a not in e:
+            probs.append(Problem("oracle", case, i, op, a, b, detail="the property demands: " + " or ".join(e)))
+            if op.startswith("keys word ") and a == b and len(probs) < 4:
+                continue            # the table is not changed by a lookup: the rest of the case is still judged
             break
         if a != b:
             probs.append(Problem("diff", case, i, op, a, b))
@@ -184,10 +215,39 @@ def diff_is_failure(prop, p):
     return False
 
 
+ONE_CHAR_WORD = __import__("re").compile(r"^keys word [01] 2d2d(?!2d|3d|2c|20|00)[0-9a-f]{2}$")
+
+
+def finding_matches(finding, p):
+    """known finding one-char-long-key: the word `--c` is looked up with the SHORT key c.  Only the exact shape
+    is excused: a `keys word` line with a one-character name on which the implementation answers what the Lean
+    model answers (theorem C05_cmdline_key, third clause) and the answer is the lookup of the short key."""
+    if finding.get("match", {}).get("custom") != "one-char-long-word":
+        return False
+    if p.kind != "oracle" or not ONE_CHAR_WORD.match(p.line or "") or p.impl != p.model:
+        return False
+    # the answer must be what `-c` gives in the same table (recomputed here from the accepted specifications)
+    table = []
+    for l in p.case.lines[:max(0, p.index - 1)]:
+        t = l.split(" ")
+        if t[:2] == ["keys", "add"] and len(t) == 3:
+            k = ref_parse(unhex(t[2]))
+            if k is None:
+                continue        # the oracle judged this line, so every specification it does not understand was refused
+            if not any(shares(e, k) for e in table):
+                table.append(k)
+    c = unhex(p.line.split(" ")[3])[2:]
+    exact = [j for j, e in enumerate(table) if e[0] == c]
+    return p.impl == ("ok %d" % exact[0] if exact else "ok none")
+
+
 def nontrivial_key(op, result):
     t = op.split(" ")
     r = (result or "").split(" ")
     rc = " ".join(r[:2]) if r and r[0] == "throw" else ("ok none" if r[:2] == ["ok", "none"] else r[0])
+    if t[1] == "word":
+        w = unhex(t[3])
+        return (t[1], t[2], "short" if w[:2] != b"--" else "long%d" % min(len(w) - 2, 3), rc)
     if t[1] in ("find", "findc"):
         k = ref_parse(unhex(t[3])) if t[1] == "find" else (unhex(t[3]), b"")
         kk = "garbage" if k is None else ("pos" if k == (b"", b"") else "short" if not k[1] else "long%d" % min(len(k[1]), 4))
@@ -219,11 +279,19 @@ def lookup_lines(keys):
     return out
 
 
+def word_lines(words):
+    """key words through the real Handler::evalArguments"""
+    return ["keys word %s %s" % (abbr, hexs(w)) for w in words for abbr in ("1", "0")]
+
+
+POOL_CMDWORDS = ["-x", "-y", "-i", "--x", "--i", "--in", "--inp", "--inpa", "--inpb", "--iq", "--inpab", "--z", "--zz"]
+
+
 def exhaustive_cases(max_keys):
     """all sets of <= max_keys specs over the pool x all definition orders x every exact key and every prefix
     x abbreviations on and off"""
     cases = []
-    look = lookup_lines(POOL_LOOKUPS)
+    look = lookup_lines(POOL_LOOKUPS) + word_lines(POOL_CMDWORDS)
     n = 0
     for size in range(0, max_keys + 1):
         for combo in itertools.combinations(POOL_SPECS, size):
@@ -291,11 +359,19 @@ def random_case(rng, cid):
         lines.append("keys find %s %s" % (rng.choice("01"), hexs(key)))
         if len(k) == 1 and rng.random() < 0.5:
             lines.append("keys findc %s %s" % (rng.choice("01"), hexs(k)))
+    # the command-line path (real Handler): exact key words, abbreviations, one-character names
+    for k in look[:10]:
+        if rng.random() < 0.6:
+            w = ("-" + k) if (len(k) == 1 and rng.random() < 0.6) else ("--" + k)
+            if rng.random() < 0.12:
+                w = rng.choice(["--", "---", "----", "--x,"]) + k      # extra dashes, a two-part name: model comparison
+            lines.append("keys word %s %s" % (rng.choice("01"), hexs(w)))
     if rng.random() < 0.3:
         # the same key set once more in another order must give the same answers: interleave late additions
         extra = rand_spec(rng, words, shorts)
         lines.append("keys add " + hexs(extra))
         lines += ["keys find 1 " + hexs(k) for k in look[:6]]
+        lines += ["keys word 1 " + hexs(("-" if len(k) == 1 else "--") + k) for k in look[:4]]
     if rng.random() < 0.2:
         lines.append("keys find %s %s" % (rng.choice("01"), hexs(rng.choice(GARBAGE))))
     return Case(cid, lines)
@@ -324,7 +400,8 @@ def permutation_cases(rng, n):
         shorts = rng.sample(SHORTS, 3)
         specs = list({rand_spec(rng, words, shorts) for _ in range(rng.choice([2, 3, 3, 4]))})
         look = sorted({p for w in words for p in prefixes(w)} | set(shorts))
-        ll = lookup_lines(look)
+        ll = lookup_lines(look) + word_lines([("-" if len(k) == 1 else "--") + k for k in look]
+                                             + ["--" + k for k in shorts])
         for j, perm in enumerate(itertools.permutations(specs)):
             cases.append(Case("p%d.%d" % (i, j), ["keys add " + hexs(s) for s in perm] + ll))
     return cases
@@ -336,7 +413,12 @@ def generate(prop, tier, seed, scale=1):
         Case("r1", ["keys add " + hexs(s) for s in ("input-file", "input-dir", "input")]
              + lookup_lines(["input", "input-", "input-f", "inp"])),
         Case("r2", ["keys add " + hexs("--x-ray"), "keys add " + hexs("a-"), "keys add " + hexs("n-b")]
-             + lookup_lines(["x-ray", "x-", "a-", "n-", "n-b"])),
+             + lookup_lines(["x-ray", "x-", "a-", "n-", "n-b"]) + word_lines(["--x-ray", "--x-", "--a-", "--n-b"])),
+        # key words: every defined key through the real handler, both definition orders
+        Case("r3", ["keys add " + hexs(s) for s in ("v,verbose", "--version", "-x", "input")]
+             + word_lines(["-v", "--verbose", "--version", "-x", "--input", "--ver", "--vers", "--verb", "--inp", "-q", "--q"])),
+        Case("r4", ["keys add " + hexs(s) for s in ("input", "-x", "--version", "verbose,v")]
+             + word_lines(["-v", "--verbose", "--version", "-x", "--input", "--ver", "--vers", "--verb", "--inp", "-q", "--q"])),
     ]
     if tier == "quick":
         yield "exhaustive key sets <=3 of 17 specs over a prefix-closed pool x all orders x all lookups x abbr", exhaustive_cases(3)
